@@ -5,10 +5,10 @@ import os, re
 from . import common
 
 
-def run_calls(ctx, cfg, random_calls, mode):
+def run_calls(ctx, cfg, random_calls, mode, preout=None):
     d = ctx.subdir("cmd-calls")
     tr = os.path.join(d, "trace.ndjson")
-    rc, out, tl = ctx.pipe_tlc_to_drv("MCCommands.tla", cfg, ["cmd-calls", "-out", tr, "-seed", str(ctx.seed), "-random", str(random_calls), "-mode", mode],
+    rc, out, tl = ctx.pipe_tlc_to_drv("MCCommands.tla", cfg, ["cmd-calls", "-out", tr, "-seed", str(ctx.seed), "-random", str(random_calls), "-mode", mode] + (["-preout", preout] if preout else []),
                                       workers=None, what="call universe of MCCommands.tla: methods x argument positions x payloads x SplitLen")
     s = ctx.summary_line(out)
     if rc != 0 or s is None or not tl.ok:
